@@ -778,6 +778,9 @@ func main() {
 			m := vmsg{kind: kind, sender: g.ids[j], member: j, dh: iBH, dhash: bhHash, filed: bhHash, sig: honestShare(j), rsig: honestRand(j)}
 			return m
 		}
+		// a third of the runs: an earlier block X (hash otherHash[0], previous beacon otherHash[1]) of the
+		// same group is signed in this process first, so every member's share for X has been verified
+		xPhase := floodSize < 0 && r.Intn(3) == 0
 		byz := func(j int) vmsg {
 			m := mk("", j)
 			o := r.Intn(len(others))
@@ -791,7 +794,11 @@ func main() {
 				}
 				m.sig = valPoint(groupsig.Sign(mkSec(g.keys[j]), otherHash[o].Bytes()), single(others[o], g.keys[j]))
 			case 3: // signs another hash but claims the block hash
-				m.kind = "other-hash-hidden"
+				if xPhase {
+					// ... the exact share this member sent, and the node verified, for the earlier block X
+					o = 0
+				}
+				m.kind = map[bool]string{false: "other-hash-hidden", true: "cross-block-replay-share"}[xPhase]
 				m.sig = valPoint(groupsig.Sign(mkSec(g.keys[j]), otherHash[o].Bytes()), single(others[o], g.keys[j]))
 			case 4: // claims another hash, signature is over the block hash
 				m.kind = "claim-other-sign-block"
@@ -849,7 +856,11 @@ func main() {
 				m.kind = "swapped"
 				m.sig, m.rsig = m.rsig, m.sig
 			case 16: // beacon share over another message
-				m.kind = "rand-other-msg"
+				if xPhase && len(others) > 1 {
+					// ... the exact beacon share of the earlier block X (verified then)
+					o = 1
+				}
+				m.kind = map[bool]string{false: "rand-other-msg", true: "cross-block-replay-rand"}[xPhase && len(others) > 1]
 				m.rsig = valPoint(groupsig.Sign(mkSec(g.keys[j]), otherHash[o].Bytes()), single(others[o], g.keys[j]))
 			case 17: // not a member, own key, otherwise well formed
 				m.kind = "outsider"
@@ -892,6 +903,14 @@ func main() {
 		}
 		for i := 0; i < nByz; i++ {
 			msgs = append(msgs, byz(r.Intn(n)))
+		}
+		if xPhase {
+			for i, nx := 0, 1+r.Intn(3); i < nx; i++ {
+				j := r.Intn(n)
+				m := mk("cross-block-replay-share", j)
+				m.sig = valPoint(groupsig.Sign(mkSec(g.keys[j]), otherHash[0].Bytes()), single(others[0], g.keys[j]))
+				msgs = append(msgs, m)
+			}
 		}
 		if atk == "non-member" {
 			m := mk("outsider", 0)
@@ -970,7 +989,7 @@ func main() {
 			}
 			return map[string]interface{}{"n": n, "k": k, "ids": is, "member_keys": ks, "group_secret": g.gsk.String(), "unknown_member": unknownMember,
 				"block_hash": bhHash.Hex(), "pre_random": hex.EncodeToString(preRandom), "block_exists": existed, "consistent_keys": consistent,
-				"replayed_at_start": nFut, "through_processor": procMode, "flood_under_block_hash": floodSize, "two_groups": twoGroups, "arrived_before_cast": nPre, "keys_registered_by_message": viaMsg, "faulty_registration": atk,
+				"replayed_at_start": nFut, "through_processor": procMode, "flood_under_block_hash": floodSize, "two_groups": twoGroups, "earlier_block_signed_first": xPhase, "arrived_before_cast": nPre, "keys_registered_by_message": viaMsg, "faulty_registration": atk,
 				"outsider_id": outsiderID.String(), "squatted_member": squatted, "messages": ml}
 		}
 		// every message travels as the node sends it: protobuf bytes decoded by
@@ -1040,6 +1059,27 @@ func main() {
 			if floodSize >= 0 {
 				nPre = len(msgs)
 			}
+		}
+		if xPhase {
+			bhX := &types.BlockHeader{Hash: otherHash[0], Height: 9, GroupId: gid.Serialize()}
+			preX := &types.BlockHeader{Hash: hashOf(r.Bytes(32)), Height: 8, Random: otherHash[1].Bytes()}
+			vX, _ := logical.VerifR1New(logical.VerifR1Config{Self: ids[0], Group: gInfo, PreBH: preX, BH: bhX, Net: netStub})
+			nk := 0
+			if vX != nil {
+				for j := 0; j < n; j++ {
+					if !known[j] {
+						continue
+					}
+					nk++
+					vX.Update(&model.ConsensusVerifyMessage{BlockHash: otherHash[0], RandomSign: groupsig.Sign(mkSec(g.keys[j]), otherHash[1].Bytes()), Id: fmt.Sprintf("X-%d-%d", run, j),
+						SignInfo: model.MakeSignInfo(otherHash[0], groupsig.Sign(mkSec(g.keys[j]), otherHash[0].Bytes()), ids[j], common.ConsensusVersion)})
+				}
+				if consistent && atk == "" && nk >= k && len(vX.Generated()) != 1 {
+					res.Violate("C15/cross-block:earlier-block-not-finalised", "the earlier block of the same group, fed every member's valid share, was not generated", desc())
+				}
+				res.Histogram["cross-block:earlier-block-signed"]++
+			}
+			plog.Take()
 		}
 		// two-group runs: a party for a block of group A (same members, the node lacks member crossM's
 		// key there) receives messages while this group's round is collecting
